@@ -600,14 +600,22 @@ fn main() {
                 run_spec(&s, &mut out);
                 id += 1;
             }
+            // few-bit dyadic weights and measurements keep the exact rationals of the q- histories small
+            const QW: [(f32, f32); 4] = [(1.0 / 16.0, 1.0 / 128.0), (1.0 / 32.0, 1.0 / 64.0), (1.0 / 8.0, 1.0 / 8.0), (1.0 / 16.0, 1.0 / 256.0)];
             for k in 0..(a.n / 2).max(1) {
-                let mut s = gen_box(&mut rng, id, k as u64, 6, true);
+                let mut s = gen_box(&mut rng, id, k as u64, 5, true);
+                let w = QW[k % 4];
+                s.wp = w.0;
+                s.wv = w.1;
                 s.kind = format!("q-{}", s.kind);
                 run_spec(&s, &mut out);
                 id += 1;
             }
             for k in 0..(a.n / 4).max(1) {
                 let mut s = gen_points(&mut rng, id, "point", k as u64, 10, true);
+                let w = QW[k % 4];
+                s.wp = w.0;
+                s.wv = w.1;
                 s.kind = format!("q-{}", s.kind);
                 run_spec(&s, &mut out);
                 id += 1;
